@@ -3,6 +3,7 @@ import Lemmas.QuadTreeGeom
 import Lemmas.QuadTreeFuel
 import Lemmas.QuadTreeFuelTree
 import Lemmas.QuadTreeFuelRat
+import Lemmas.QuadTreeHist
 /-! # C07 — QuadTree queries return exactly what a linear scan of the stored nodes would
 
 Property theorems only.  `QT.Tree` / `QT.Node` are the executable model of `collection/quadtree` (`Model/QuadTree.lean`)
@@ -142,6 +143,79 @@ theorem remove_complete (id : Nat) (b : R) (n : Node R) (hi : Node.Inv n) (x : I
 
 end Generic
 
+section Hist
+variable {R P : Type} [L : RectOps R P] [H : RectLaws R P]
+
+/-! ### the contract as the package states it: bounds fixed only WHILE a node is stored
+
+`abs_run` … `findMatchedContainedByRect_eq_filter` fix one bounds function per history (`OpOK`).  The package only
+demands that `Bounds()` stays the same until the node is removed: an object that is not stored may come back with other
+bounds.  `QT.HistOK` is that contract (checked against the specification state before each operation), the
+specification `QT.specRunI` is the multiset of stored ITEMS (id with the bounds it was inserted with); the `OpOK` form
+is the special case `hist_of_opOK`.  The harness does this to its objects (`ins same-object-new-bounds` in the
+evidence). -/
+
+/-- "Size and All report exactly the inserted, not-yet-removed nodes with non-empty bounds" under the history-dependent
+    contract: the stored items are the specification's multiset, `Size` is their number, none is empty -/
+theorem abs_run_hist (fuel : Nat) (k : Int) (ops : List (Op R)) (hops : HistOK ([] : List (Item R)) ops) :
+    (Tree.run fuel k ops).all.Perm (specRunI ops) ∧ (Tree.run fuel k ops).size = ((specRunI ops).length : Int) ∧
+    ∀ it ∈ (Tree.run fuel k ops).all, L.empty it.rect = false := by
+  obtain ⟨⟨bd, hb⟩, hp⟩ := run_okI fuel k ops hops
+  exact ⟨hp, size_okI fuel k ops hops, fun it hit => (hb.keyed it hit).2⟩
+
+/-- all eight `Find*` queries under the history-dependent contract: each returns, as a multiset of items, the linear
+    scan of the specification with the corresponding `geom` predicate (and the matcher) -/
+theorem queries_hist (fuel : Nat) (k : Int) (ops : List (Op R)) (hops : HistOK ([] : List (Item R)) ops)
+    (m : Item R → Bool) (p : P) (q : R) :
+    let t := Tree.run fuel k ops
+    let s := specRunI ops
+    (t.findContainsPoint p).Perm (s.filter (fun it => L.inPt p it.rect)) ∧
+    (t.findMatchedContainsPoint m p).Perm (s.filter (fun it => L.inPt p it.rect && m it)) ∧
+    (t.findIntersects q).Perm (s.filter (fun it => L.intersects it.rect q)) ∧
+    (t.findMatchedIntersects m q).Perm (s.filter (fun it => L.intersects it.rect q && m it)) ∧
+    (t.findContainsRect q).Perm (s.filter (fun it => L.contains it.rect q)) ∧
+    (t.findMatchedContainsRect m q).Perm (s.filter (fun it => L.contains it.rect q && m it)) ∧
+    (t.findContainedByRect q).Perm (s.filter (fun it => L.contains q it.rect)) ∧
+    (t.findMatchedContainedByRect m q).Perm (s.filter (fun it => L.contains q it.rect && m it)) := by
+  have and1 : ∀ {a b : Bool}, (a && b) = true → a = true := fun h => by
+    simp only [Bool.and_eq_true] at h; exact h.1
+  exact ⟨find_okI fuel k ops hops _ _ (fun a it hc hf => H.prune_point a it.rect p hc hf),
+    find_okI fuel k ops hops _ _ (fun a it hc hf => H.prune_point a it.rect p hc (and1 hf)),
+    find_okI fuel k ops hops _ _ (fun a it hc hf => H.prune_intersects a it.rect q hc hf),
+    find_okI fuel k ops hops _ _ (fun a it hc hf => H.prune_intersects a it.rect q hc (and1 hf)),
+    find_okI fuel k ops hops _ _ (fun a it hc hf => H.prune_containsRect a it.rect q hc hf),
+    find_okI fuel k ops hops _ _ (fun a it hc hf => H.prune_containsRect a it.rect q hc (and1 hf)),
+    find_okI fuel k ops hops _ _ (fun a it hc hf => H.prune_containedBy a it.rect q hc hf),
+    find_okI fuel k ops hops _ _ (fun a it hc hf => H.prune_containedBy a it.rect q hc (and1 hf))⟩
+
+omit H in
+/-- the one-bounds-function contract of `abs_run` is a special case of the history-dependent one -/
+theorem hist_of_opOK (bounds : Nat → R) (ops : List (Op R)) (hops : ∀ op ∈ ops, OpOK bounds op) :
+    HistOK ([] : List (Item R)) ops :=
+  histOK_of_opOK bounds ops hops [] (fun x hx => by simp at hx)
+
+/-- "This holds for every threshold" (and every fuel), and `Reorganize` / a change of `Threshold` are invisible: two
+    runs of histories that differ only in the initial threshold, the fuel, and in `Reorganize` / `setThreshold`
+    operations put anywhere (i.e. that have the same specification) answer every query with the same multiset -/
+theorem threshold_reorganize_invisible (fuel fuel' : Nat) (k k' : Int) (ops ops' : List (Op R))
+    (hops : HistOK ([] : List (Item R)) ops) (hops' : HistOK ([] : List (Item R)) ops')
+    (hspec : (specRunI ops).Perm (specRunI ops'))
+    (pr : R → Bool) (f : Item R → Bool)
+    (hpr : ∀ (a : R) (it : Item R), L.contains a it.rect = true → f it = true → pr a = true) :
+    ((Tree.run fuel k ops).find pr f).Perm ((Tree.run fuel' k' ops').find pr f) ∧
+    (Tree.run fuel k ops).size = (Tree.run fuel' k' ops').size :=
+  ⟨(find_okI fuel k ops hops pr f hpr).trans ((hspec.filter f).trans (find_okI fuel' k' ops' hops' pr f hpr).symm),
+   by rw [size_okI fuel k ops hops, size_okI fuel' k' ops' hops', hspec.length_eq]⟩
+
+omit H in
+/-- the specification does not see `Reorganize` and `setThreshold`: appending them (the form in which
+    `threshold_reorganize_invisible` is used most) leaves `specRunI` unchanged -/
+theorem spec_ignores_reorganize (ops : List (Op R)) (k : Int) :
+    specRunI (ops ++ [Op.reorganize]) = specRunI ops ∧ specRunI (ops ++ [Op.setThreshold k]) = specRunI ops := by
+  simp [specRunI, List.foldl_append, specApplyI]
+
+end Hist
+
 /-! ### the two coordinate types that are run -/
 open Geom
 
@@ -278,5 +352,33 @@ example : ∀ op ∈ ([Op.insert ⟨1, ⟨0, 0, 1, 1⟩⟩, Op.remove 1 ⟨0, 0,
   intro op h
   simp only [List.mem_cons, List.not_mem_nil, or_false] at h
   rcases h with h | h | h <;> subst h <;> simp [OpOK]
+
+/-! a history that satisfies the history-dependent contract but NO single bounds function: object 1 is stored at
+    `(0,0,1,1)`, removed, and comes back at `(5,5,2,2)` -/
+example : HistOK ([] : List (Item (Rect Int)))
+    [Op.insert ⟨1, ⟨0, 0, 1, 1⟩⟩, Op.remove 1 ⟨0, 0, 1, 1⟩, Op.insert ⟨1, ⟨5, 5, 2, 2⟩⟩, Op.reorganize] := by
+  simp [HistOK, OpOKI, specApplyI, RectOps.empty, Rect.empty]
+
+example : ¬ ∃ bounds : Nat → Rect Int, ∀ op ∈ ([Op.insert ⟨1, ⟨0, 0, 1, 1⟩⟩, Op.remove 1 ⟨0, 0, 1, 1⟩,
+    Op.insert ⟨1, ⟨5, 5, 2, 2⟩⟩] : List (Op (Rect Int))), OpOK bounds op := by
+  intro ⟨b, h⟩
+  have h1 := h (Op.insert ⟨1, ⟨0, 0, 1, 1⟩⟩) (by simp)
+  have h2 := h (Op.insert ⟨1, ⟨5, 5, 2, 2⟩⟩) (by simp)
+  simp only [OpOK] at h1 h2
+  rw [← h1] at h2
+  simp at h2
+
+/-- the contract is needed (CONTRAST): if an object's bounds change WHILE it is stored, `Remove` — which descends only
+    into tree nodes whose rectangle contains the bounds it is given — does not find the entry, so `All` keeps a node
+    the specification has removed.  Here node 1 sits in a subdivided quadrant of a 8×8 root and is removed under the
+    bounds `(6,6,1,1)` of another quadrant. -/
+theorem contract_needed :
+    let ops : List (Op (Rect Int)) :=
+      [Op.insert ⟨0, ⟨0, 0, 8, 8⟩⟩, Op.reorganize, Op.insert ⟨1, ⟨1, 1, 1, 1⟩⟩, Op.insert ⟨2, ⟨1, 1, 1, 1⟩⟩,
+       Op.insert ⟨3, ⟨1, 1, 1, 1⟩⟩, Op.insert ⟨4, ⟨1, 1, 1, 1⟩⟩, Op.remove 1 ⟨6, 6, 1, 1⟩]
+    ¬ HistOK ([] : List (Item (Rect Int))) ops ∧
+    ids (Tree.run 10 4 ops).all = [0, 1, 2, 3, 4] ∧ ids (specRunI ops) = [4, 3, 2, 0] := by
+  refine ⟨?_, by decide, by decide⟩
+  simp [HistOK, OpOKI, specApplyI, RectOps.empty, Rect.empty]
 
 end C07
